@@ -217,6 +217,11 @@ func (l *Listener) Accept() (net.Conn, error) {
 	for len(l.queue) == 0 && !l.closed {
 		l.cond.Wait()
 	}
+	if l.node != nil && l.node.dead {
+		// the program is gone: nothing of it runs any further
+		k.leave()
+		hangForever()
+	}
 	if l.closed {
 		k.leave()
 		return nil, opErr("accept", net.ErrClosed)
